@@ -1,4 +1,5 @@
 import PicoVerif.Model.Include
+import PicoVerif.Lemmas.C12
 /-! C12 — require() and #include never read files outside the permitted directories.
 "Located under" is lexical (normalised paths); symbolic links and the real file system are outside the model. -/
 namespace Pico.C12
@@ -11,7 +12,7 @@ def accessPath : Access → P
 /-- **C12.within_is_componentwise**: the containment test accepts a path only if the root's components are a
 prefix of the path's components — being *under* the root, not merely sharing a string prefix with it. -/
 theorem within_is_componentwise (path root : P) (h : isWithin path root = true) : comps root <+: comps path := by
-  sorry
+  exact within_comps path root h
 
 /-- a sibling directory whose name merely starts with the root's name is outside -/
 example : isWithin "/carts/foobar/x.lua".toList "/carts/foo".toList = false := by decide
@@ -23,13 +24,15 @@ before any file-system access. -/
 theorem include_rejects (fs : FS) (root dir : P) (line : Bytes) (m : IncMatch) (hm : matchInclude line = some m)
     (hout : isWithin (normpath (join dir (bytesToPath (m.path ++ m.ext)))) root = false) :
     includeLine fs root dir line = (.error .outsideRoot, []) := by
-  sorry
+  simp [includeLine, hm, hout]
 
 /-- **C12.include_accesses**: every file-system access made while processing the include lines of a cart — probes
 and opens alike, on success or failure — names a path under the include root. -/
 theorem include_accesses (fs : FS) (root dir : P) (lines : List Bytes) :
     ∀ a ∈ (processIncludes fs root dir lines).2, isWithin (accessPath a) root = true := by
-  sorry
+  intro a ha
+  obtain ⟨p, hp, hw⟩ := processIncludes_accesses fs root dir lines a ha
+  rcases hp with rfl | rfl <;> exact hw
 
 /-- **C12.dotdot_escapes_normalised**: the target is normalised before the test, so `..` cannot smuggle a path past it -/
 example : isWithin (normpath (join "/carts/foo".toList "../foobar/x.lua".toList)) "/carts/foo".toList = false := by decide
@@ -38,19 +41,20 @@ example : isWithin (normpath (join "/carts/foo".toList "lib/../x.lua".toList)) "
 /-- **C12.require_filter**: a require() string that passes the filter is relative and has no `.` or `..` component. -/
 theorem require_filter (p : Bytes) (h : requireRejected p = false) :
     p.head? ≠ some 47 ∧ ∀ part ∈ splitByte 47 p, part ≠ [46] ∧ part ≠ [46, 46] := by
-  sorry
+  exact requireRejected_false p h
 
 /-- **C12.clean_suffix_stays_under**: appending components none of which is `..` to a path cannot leave it:
 normalising `pre/c1/.../cn` yields the normalisation of `pre` followed by the `ci` that are neither empty nor `.`. -/
 theorem clean_suffix_stays_under (absolute : Bool) (pre cs : List P) (h : ∀ c ∈ cs, c ≠ ['.', '.']) :
     normComps absolute (pre ++ cs) [] = normComps absolute pre [] ++ cs.filter (fun c => c ≠ [] ∧ c ≠ ['.']) := by
-  sorry
+  rw [normComps_append, normComps_clean absolute cs h, List.reverse_reverse]
 
 /-- **C12.require_probes_are_candidates**: `_locate_require_file` probes exactly the candidate paths built from the
 load-path templates, in order, stopping at the first that is a file; it opens nothing else. -/
 theorem require_probes_are_candidates (isFile : P → Bool) (p dir luaPath : P) :
     ∃ k, (locateRequire isFile p dir luaPath).2 = ((requireCandidates p dir luaPath).take k).map Access.isfile := by
-  sorry
+  obtain ⟨k, hk⟩ := locateRequire_go_probes isFile (requireCandidates p dir luaPath) []
+  exact ⟨k, by simpa [locateRequire] using hk⟩
 
 example : requireRejected "..".toUTF8.toList = true := by decide +kernel
 example : requireRejected "lib/../../x".toUTF8.toList = true := by decide +kernel
